@@ -100,6 +100,31 @@ class TypedStream(FaultStream):
         return self.kind(super().readline())
 
 
+class SeekableFaultStream(FaultStream):
+    """
+    FaultStream that is also SEEKABLE (a log file still being written, a BytesIO with a read
+    time-out wrapper): seek/tell/seekable behave like a file's; every seek is recorded.
+    """
+
+    def __init__(self, source: bytes, chooser=None, **kw):
+        super().__init__(source, chooser, **kw)
+        self.seeks = []
+
+    def seekable(self):
+        return True
+
+    def tell(self):
+        return self.pos
+
+    def seek(self, offset, whence=0):
+        new = offset if whence == 0 else self.pos + offset if whence == 1 else len(self.source) + offset
+        if new < 0:
+            raise ValueError(f"negative seek position {new}")
+        self.seeks.append((self.pos, new))
+        self.pos = min(new, len(self.source))
+        return self.pos
+
+
 class DribbleRaw(io.RawIOBase):
     """Raw stream returning at most ``step`` bytes per readinto (for BufferedReader)."""
 
